@@ -653,6 +653,9 @@ class Evaluator:
                         b = b.value
                     if isinstance(b, ast.Name):
                         out.append(b.id)
+                elif isinstance(n, ast.Call) and isinstance(n.func, ast.Attribute) and isinstance(n.func.value, ast.Name) \
+                        and n.func.attr in ("append", "extend"):
+                    out.append(n.func.value.id)      # list filled in the loop
                 elif isinstance(n, (ast.FunctionDef, ast.Lambda)) and n is not st:
                     pass
         seen, res = set(), []
@@ -750,8 +753,56 @@ class Evaluator:
                 return l + r
         return None
 
+    @staticmethod
+    def appended_elements(L: T):
+        """L built as  L = []; for i in R: L.append(E(i))  ->  (E, iteration term of that loop, R)"""
+        if L.op != "loopout" or len(L.args) != 4:
+            return None
+        lid, name, init, fin = L.args
+        if not (isinstance(init, T) and init.op == "list" and not init.args and isinstance(fin, T) and fin.op == "append"):
+            return None
+        prev, E = fin.args
+        if not (prev.op == "havoc" and prev.args[0] == lid and prev.args[1] == name):
+            return None
+        its = [x for x in subterms(E) if x.op == "iter" and x.args[1] == lid]
+        if len({x.uid for x in its}) > 1:
+            return None
+        return E, (its[0] if its else None), (its[0].args[0] if its else None)
+
     def st_For(self, fr, st):
         it = self.eval(fr, st.iter)
+        # second pass over a list filled by an earlier loop:  for k, x in enumerate(L)  /  for x in L
+        src, with_index = it, False
+        if it.op == "call" and func_name(it) == "builtins.enumerate" and len(call_parts(it)[1]) == 1:
+            src, with_index = call_parts(it)[1][0], True
+        ap = self.appended_elements(src) if isinstance(src, T) else None
+        if ap is not None and not st.orelse:
+            E, it1, rng = ap
+            lid = st.lineno
+            header = rng if rng is not None else it
+            idx = mk("iter", header, lid)
+            elem = substitute(E, {it1: idx}) if it1 is not None else E
+            assigned = self._assigned_names(st.body)
+            inits = {}
+            for v in assigned:
+                init = fr.lookup(v)
+                inits[v] = init
+                if init is not None and v in fr.env.vars:
+                    fr.env.vars[v] = mk("havoc", lid, v, init)
+            old_loops = fr.loops
+            fr.loops = old_loops + ((lid, header),)
+            self.emit(fr, "loop_enter", lid, header)
+            self.assign(fr, st.target, mk("tuple", idx, elem) if with_index else elem, lid)
+            saved_term, saved_path = fr.env.terminated, fr.path
+            self.exec_block(fr, st.body)
+            fr.env.terminated, fr.path = saved_term, saved_path
+            fr.loops = old_loops
+            for v in assigned:
+                fin = fr.env.vars.get(v)
+                if fin is not None:
+                    fr.env.vars[v] = mk("loopout", lid, v, inits[v] if inits.get(v) is not None else mk("undef", v), fin)
+            self.emit(fr, "loop_exit", lid, header)
+            return
         seq = self.const_sequence(it)
         if seq is not None and not st.orelse and not any(
                 isinstance(n, (ast.Break, ast.Continue, ast.Return)) for b in st.body for n in ast.walk(b)):
